@@ -146,6 +146,12 @@ class FGen:
         if x < 0.3 and nums:
             u = rng.choice(nums)
             return ("smt", f"({rng.choice(['>', '<', '=', '>=', '<='])} (str.to.int {u}) {rng.choice([0, 1, 2, 5, 10, 12, 100])})", [u])
+        if x < 0.38 and nums:
+            # integer div/mod with a (often) negative dividend and a positive divisor: SMT-LIB keeps the remainder non-negative
+            u = rng.choice(nums)
+            op, k1, k2, k3 = rng.choice(["div", "div", "mod"]), rng.choice([1, 5, 10, 50, 200]), rng.choice([2, 3, 7]), rng.randint(0, 4)
+            rhs = f"(- 0 {k3})" if op == "div" and rng.random() < 0.7 else str(k3)
+            return ("smt", f"({rng.choice(['=', '=', '<=', '>'])} ({op} (- (str.to.int {u}) {k1}) {k2}) {rhs})", [u])
         if x < 0.45 and len(nums) > 1:
             u, w = rng.sample(nums, 2)
             return ("smt", f"({rng.choice(['<', '=', '<='])} (str.to.int {u}) (+ (str.to.int {w}) {rng.randint(0, 3)}))", sorted({u, w}))
